@@ -212,6 +212,7 @@ structure World where
   conds : Nat → Cond
   bars : Nat → Bar
   hgrant : Aid → Bool       -- granted_ of the acquisition obtained from the last *_async call (split path)
+  hlast : Aid → Bool := fun _ => false   -- `was_last` local of Barrier::wait (split path): read in the BARRIER_ASYNC_LOCK simcall
 
 inductive Ev where
   -- mutex
@@ -292,6 +293,24 @@ def grantUnwaitedB (h : Aid → Bool) : List BAcq → (Aid → Bool)
   | [] => h
   | x :: xs => grantUnwaitedB (if x.waited then h else upd h x.issuer true) xs
 
+/-- BARRIER_ASYNC_LOCK (split path of Barrier::wait), given the result `r` of acquire_async = (barrier, granted_,
+released acquisitions): `was_last = pimpl_->was_last()` is read inside the same simcall.  A waiter released here was
+queued by its own acquire_async, so its own `was_last` local is false (C07 `acquireAsync_queued_not_last`): `.flag false`.
+(`r` is a parameter so that facts about this step are proved for every `r`, without unfolding `acquireAsync`, whose 2^32
+literals do not reduce symbolically.) -/
+def barAsyncStepR (w : World) (a : Aid) (b : Nat) (r : Bar × Bool × List BAcq) : World × Outs :=
+  ({ w with bars := upd w.bars b r.1, hgrant := upd (grantUnwaitedB w.hgrant r.2.2) a r.2.1,
+            hlast := upd w.hlast a r.1.wasLast },
+   ((r.2.2.filter (·.waited)).map (fun q => (q.issuer, Res.flag false))) ++ [(a, .unit)])
+
+def barAsyncStep (w : World) (a : Aid) (b : Nat) : World × Outs := barAsyncStepR w a b ((w.bars b).acquireAsync a)
+
+/-- BARRIER_WAIT (split path): wait_for on the acquisition, then `return was_last;` (before the fix of
+`barrier-last-flag-mc` the never-set result of the BARRIER_WAIT observer was returned: always false) -/
+def barWaitMCStep (w : World) (a : Aid) (b : Nat) : World × Outs :=
+  let r := (w.bars b).waitFor a (w.hgrant a)
+  ({ w with bars := upd w.bars b r.1 }, if r.2 then [(a, .flag (w.hlast a))] else [])
+
 /-- One kernel-level event.  Outputs: the simcalls answered by this event, in the order the kernel answers them. -/
 def World.step (w : World) : Ev → Except Err (World × Outs)
   | .lock a m =>
@@ -365,14 +384,8 @@ def World.step (w : World) : Ev → Except Err (World × Outs)
     .ok ({ w with bars := upd w.bars b b2, hgrant := grantUnwaitedB w.hgrant released },
          ((released.filter (·.waited)).map (fun q => (q.issuer, Res.flag false))) ++
            (if fin then [(a, .flag b2.wasLast)] else []))
-  | .barAsync a b =>
-    let (b1, g, released) := (w.bars b).acquireAsync a
-    .ok ({ w with bars := upd w.bars b b1, hgrant := upd (grantUnwaitedB w.hgrant released) a g },
-         ((released.filter (·.waited)).map (fun q => (q.issuer, Res.flag false))) ++ [(a, .unit)])
-  | .barWaitMC a b =>
-    let (b1, fin) := (w.bars b).waitFor a (w.hgrant a)
-    -- the BARRIER_WAIT observer's result is never set on this path: it keeps its default `false`
-    .ok ({ w with bars := upd w.bars b b1 }, if fin then [(a, .flag false)] else [])
+  | .barAsync a b => .ok (barAsyncStep w a b)
+  | .barWaitMC a b => .ok (barWaitMCStep w a b)
 
 /-- A whole history of kernel-level events; stops at the first assertion failure. -/
 def World.run (w : World) : List Ev → Except Err (World × Outs)
